@@ -20,6 +20,26 @@ pub fn fv_bytes(v: &Value) -> Vec<u8> { get_bytes(&v["b"]) }
 pub fn j_u8(n: u8) -> Value { json!({"some": true, "n": n, "b": [], "sub": []}) }
 pub fn j_bytes(b: &[u8]) -> Value { json!({"some": true, "n": 0, "b": bytes(b), "sub": []}) }
 pub fn j_sub(s: Value) -> Value { json!({"some": true, "n": 0, "b": [], "sub": s}) }
+// ---- borrowing (C09): fields that must point into the decoding input -------------------------------------------------
+thread_local! {
+    static INPUT: std::cell::Cell<(usize, usize)> = const { std::cell::Cell::new((0, 0)) };
+    static BORROW_OK: std::cell::Cell<bool> = const { std::cell::Cell::new(true) };
+}
+pub fn leak_str(s: String) -> &'static str { Box::leak(s.into_boxed_str()) }
+pub fn leak_bytes(b: Vec<u8>) -> &'static [u8] { Box::leak(b.into_boxed_slice()) }
+fn note_borrow(s: &[u8], must: bool) {
+    let (lo, hi) = INPUT.with(|c| c.get());
+    if hi == 0 || s.is_empty() || !must { return }
+    let p = s.as_ptr() as usize;
+    if !(p >= lo && p + s.len() <= hi) { BORROW_OK.with(|c| c.set(false)) }
+}
+pub fn j_borrowed(b: &[u8]) -> Value { note_borrow(b, true); j_bytes(b) }
+pub fn j_cow(c: &std::borrow::Cow<'_, str>, must_borrow: bool) -> Value {
+    if must_borrow && !c.is_empty() {
+        match c { std::borrow::Cow::Borrowed(s) => note_borrow(s.as_bytes(), true), std::borrow::Cow::Owned(_) => { let (_, hi) = INPUT.with(|c| c.get()); if hi != 0 { BORROW_OK.with(|c| c.set(false)) } } }
+    }
+    j_bytes(c.as_bytes())
+}
 pub fn j_none() -> Value { json!({"some": false, "n": 0, "b": [], "sub": []}) }
 
 pub fn err_class(e: &minicbor::decode::Error) -> &'static str {
@@ -28,7 +48,7 @@ pub fn err_class(e: &minicbor::decode::Error) -> &'static str {
 }
 
 pub fn exec<T>(op: &str, input: &Value) -> Value
-where T: Dv + Encode<()> + CborLen<()> + for<'b> Decode<'b, ()> + PartialEq + std::fmt::Debug
+where T: Dv + Encode<()> + CborLen<()> + Decode<'static, ()> + PartialEq + std::fmt::Debug
 {
     match op {
         "enc" => {
@@ -39,12 +59,17 @@ where T: Dv + Encode<()> + CborLen<()> + for<'b> Decode<'b, ()> + PartialEq + st
             }
         }
         "dec" => {
-            let b = get_bytes(&input["bytes"]);
-            let mut d = Decoder::new(&b);
-            match d.decode::<T>() {
-                Ok(v) => json!({"p": "run", "ok": true, "val": v.to_json(), "pos": d.position()}),
-                Err(e) => json!({"p": "run", "ok": false, "cls": err_class(&e), "pos": d.position()})
-            }
+            // the input lives for the rest of the process: borrowing types are instantiated at 'static
+            let b: &'static [u8] = leak_bytes(get_bytes(&input["bytes"]));
+            INPUT.with(|c| c.set((b.as_ptr() as usize, b.as_ptr() as usize + b.len())));
+            BORROW_OK.with(|c| c.set(true));
+            let mut d = Decoder::new(b);
+            let r = match d.decode::<T>() {
+                Ok(v) => { let val = v.to_json(); json!({"p": "run", "ok": true, "val": val, "pos": d.position(), "bor": BORROW_OK.with(|c| c.get())}) }
+                Err(e) => json!({"p": "run", "ok": false, "cls": err_class(&e), "pos": d.position(), "bor": true})
+            };
+            INPUT.with(|c| c.set((0, 0)));
+            r
         }
         _ => json!({"p": "unsupported"})
     }
